@@ -28,12 +28,16 @@ LEVEL_TEXT = ('Lean 4 theorems over a line-by-line model of Counter / numToRoman
               'items print 1,2,3 restarting in every nested list, labelled items do not count). '
               'numToRoman and the class counter tables are regenerated from the live code on every run; the model is tied to the code by '
               'differential execution (exhaustive for the representations) and generated documents are checked against an independent LaTeX oracle. '
-              'Which construct steps when (document level) is carried by the doc8 stream only.')
+              'User entry points are in the model: \\arabic/\\roman/\\Roman/\\alph/\\Alph{c} and \\thec in text (show_prints_representation), \\renewcommand{\\thec} '
+              '(renewed_the_is_used, appendix_overrides_renewed), \\setcounter{n}{\\value{m}} (value_is_copied), the --counter option (initial_counter_option), and the format '
+              'lexer (format_lexer_roundtrip, class_formats_split). Which construct steps when (document level) is carried by the doc8 stream only.')
 LEVEL_NOTE = ('Trusted: Lean kernel (axioms propext, Classical.choice, Quot.sound only), harness/extract.py and the AST translator of numToRoman in '
               'harness/props/c08.py, the two format regexes re-used by the harness to split format strings, the correspondence harness and generators, CPython. '
               'Modelled not verified: expansion/digestion that turns source into the event sequence, templates that display numbers.')
 TECHNIQUE = 'Lean 4 proof (induction on reset fuel / histories, digit decomposition) + AST-translated numToRoman + probed class tables + differential correspondence'
-TRUSTED = ['regex splitting of TheCounter.format into pieces is done by the harness with the regexes copied from the code (fmt stream validates it)',
+TRUSTED = ['the two regexes of TheCounter.invoke are modelled by a hand-written lexer (Model.splitFormat, ASCII \\w and \\s): tied by the fmt stream (raw format strings, '
+           'malformed references included) and by class_formats_split (kernel check against the harness regex split of the live class formats); Python re itself is trusted',
+           'macro expansion that turns \\renewcommand{\\thec}{...} bodies, \\arabic{c}, \\value{c} into the modelled events is tied by the doc8 stream only',
            'document -> event sequence (which macro steps which counter when) is tied by the doc8 stream only']
 ASSUMPTIONS = ['roman_standard is structural: thousands prefix by induction, the twelve regenerated statements are recognised (decide on the table) as three scaled copies of one digit program, '
                'each stage proved by a scaling lemma + ten closed digit cases; the kernel evaluation of 0..999 is kept only as a cross-check',
@@ -42,7 +46,10 @@ ASSUMPTIONS = ['roman_standard is structural: thousands prefix by induction, the
                'reading a counter that does not exist creates it (Counters.__getitem__); that side effect inside \\the... evaluation is not modelled, the value read (0) is',
                'generated documents keep lists balanced and at most 4 deep, do not manipulate enumi..enumiv explicitly, use \\nonumber only inside eqnarray rows, '
                'place a unit heading right after \\appendix, keep counters non-negative, and number theorems only within units that print a number',
-               'sectioning deeper than sec-num-depth steps its counter in plasTeX (LaTeX does not); only the printed numbers are compared with the LaTeX oracle']
+               'sectioning deeper than sec-num-depth steps its counter in plasTeX (LaTeX does not); only the printed numbers are compared with the LaTeX oracle, '
+               'and \\arabic / \\value / \\thec are generated only for counters both sides agree on',
+               '\\renewcommand{\\thec} is generated at the top level of the body only (it is local to its group), with \\the... references going strictly upwards (no cycles); '
+               'a non-arabic \\thechapter is generated only while the chapter number stays positive (known finding roman-chapter-zero-float covers the other case)']
 RULE = ('num: exhaustive ranges; ctr/fmt: seeded random histories (fmt: counter values incl. 10, 20, 100, 1000 and multiples of 10; judged against the executable '
         'nested-substitution oracle substEval); doc8: seeded random documents (explicit values on the digit boundaries 9/10, 99/100 ..., 8% long documents of 10-24 units)  (~15% malformed: undefined counters, 5-deep lists); '
         'non-trivial = spec defined and (num: always; ctr: at least one reset edge and one step; doc8: at least 3 printed numbers); distinct = distinct request line')
@@ -137,7 +144,8 @@ def _class_tables(cls):
         assert re.fullmatch(r'\w+', k) and (c.resetby is None or isinstance(c.resetby, str)) and isinstance(c.value, int)
         counters.append((k, c.resetby, c.value))
         t = doc.context['the' + k]
-        thes.append((k, split_format(t.format), bool(t.trimLeft)))
+        assert isinstance(t.format, str)
+        thes.append((k, split_format(t.format), bool(t.trimLeft), t.format))
     return counters, thes
 
 
@@ -180,7 +188,11 @@ def gen_counters():
                 '/-- their `\\the…` macros: (counter, format split into (isRef, name|text, representation), trimLeft) -/\n'
                 'def %sThes : List (String × List (Bool × String × String) × Bool) := [\n  %s]\n' % (
                     cls, ',\n  '.join('(%s, %s, %s)' % (extract.lean_str(n), _lean_pieces(ps), 'true' if tl else 'false')
-                                      for n, ps, tl in thes)))
+                                      for n, ps, tl, _ in thes)) +
+                '/-- the same macros with their raw `format` strings, as the class file writes them (counter, format, trimLeft) -/\n'
+                'def %sFormats : List (String × String × Bool) := [%s]\n' % (
+                    cls, ', '.join('(%s, %s, %s)' % (extract.lean_str(n), extract.lean_str(raw), 'true' if tl else 'false')
+                                   for n, _, tl, raw in thes)))
     src += 'end PlasVerif.Generated.Counters\n'
     return 'PlasVerif/Generated/Counters.lean', src, 'exact'
 
@@ -189,7 +201,7 @@ GENERATED = [gen_counters]
 
 # ---------------------------------------------------------------- generation: num / ctr / fmt
 
-NAMES = ['ca', 'cb', 'cc', 'cd', 'ce', 'cf']
+NAMES = ['ca', 'cb', 'c3', 'Cd', 'c_e', 'cf']     # digits, capitals and `_` are word characters too
 FMTS = ['arabic', 'roman', 'Roman', 'alph', 'Alph', 'fnsymbol']
 
 
@@ -245,15 +257,17 @@ def gen_fmt(rng):
             elif r < 0.95:
                 parts.append('${%s%s.%s%s}' % (rng.choice(['', ' ']), rng.choice(names), rng.choice(FMTS), rng.choice(['', ' '])))
             else:
-                parts.append(rng.choice(['${zz}', '${%s.nosuch}' % names[0], '$', '${', '}']))
+                # lexer edge cases: unmatched / malformed references stay literal text, `\s` is more than a blank
+                parts.append(rng.choice(['${zz}', '${%s.nosuch}' % names[0], '$', '${', '}', '$$', '${%s.}' % names[0],
+                                         '${%s.arabic.x}' % names[0], '${ %s x}' % names[0], '${\t%s\t}' % names[0],
+                                         '${\n%s.Roman\n}' % names[0], '$%s_x' % names[0], '${}', '${.arabic}', '$ {%s}' % names[0],
+                                         '{%s}' % names[0], '$%s$%s' % (names[0], names[-1]), '${%s}}' % names[0]]))
         macros['the' + n] = (''.join(parts), rng.random() < 0.4)
     target = 'the' + rng.choice(order)
     words = ['V:%s:%d' % (n, v) for n, v in vals.items()]
     for m, (f, tl) in macros.items():
-        ps = split_format(f)
-        words.append('M:%s:%d:%d' % (m, 1 if tl else 0, len(ps)))
-        for p in ps:
-            words.append(lit_word(p[1]) if p[0] == 'L' else 'R:%s:%s' % (p[1], p[2] or '-'))
+        # the raw format string goes to the driver: the model's own lexer (Model.splitFormat) does the two regex passes
+        words.append('F:%s:%d:%s' % (m, 1 if tl else 0, '_'.join(str(ord(ch)) for ch in f)))
     words.append('E:' + target)
     meta = {'kind': 'fmt', 'vals': vals, 'macros': {m: [f, tl] for m, (f, tl) in macros.items()}, 'target': target}
     return ' '.join(words), meta
@@ -278,6 +292,8 @@ class DocGen:
         self.thms = []            # (env, counter or '' )
         self.user = []            # user counters
         self.appendix = False
+        self.chapter_positive = False     # an unstarred \chapter has been seen and the counter was not set back to 0
+        self.chapter_renewed = False
         self.depth = 0
         self.secs = (['chapter'] if cls == 'book' else []) + ['section', 'subsection', 'subsubsection', 'paragraph']
         self.unit = 'chapter' if cls == 'book' else 'section'
@@ -319,19 +335,99 @@ class DocGen:
     def text(self):
         return self.rng.choice(['alpha', 'beta gamma', 'x', 'some text', 'word'])
 
+    # ---- entry points a user calls directly: \arabic{c} ..., \thec, \value{c}, \renewcommand{\thec}{...}
+
+    def readable(self):
+        """counters whose value LaTeX and plasTeX agree on (not the sectioning levels below the numbering depth)"""
+        return (list(self.user) + ['equation', 'figure', 'table'] + sorted({c for _, c in self.thms if c}) +
+                self.printed_units())
+
+    def show(self, fmt, c):
+        self.src.append('\\emph{\\%s{%s}}' % (fmt, c)); self.ev.append('SH:%s:%s' % (fmt, c))
+
+    def show_any(self):
+        rng = self.rng
+        c = rng.choice(self.readable())
+        if rng.random() < 0.5:
+            self.show('arabic', c)
+        elif not (self.appendix and c == self.unit):
+            self.src.append('\\emph{\\the%s}' % c); self.ev.append('ST:%s' % c)
+        else:
+            self.show('arabic', c)
+
+    def show_positive(self, c):
+        """right after an object of counter c was numbered: its value is at least 1"""
+        if self.rng.random() < 0.12 and c in self.readable():
+            self.show(self.rng.choice(['Roman', 'roman', 'arabic']), c)
+
+    def value_op(self):
+        rng = self.rng
+        pool = list(self.user) * 2 + ['equation', 'figure', 'table'] + [c for _, c in self.thms if c]
+        pool += [s for s in self.secs if not (self.appendix and s == self.unit)]
+        pool = [c for c in pool if c != 'chapter'] or ['equation']
+        n, m = rng.choice(pool), rng.choice(self.readable())
+        if rng.random() < 0.6:
+            self.src.append('\\setcounter{%s}{\\value{%s}}' % (n, m)); self.ev.append('TV:%s:%s' % (n, m))
+        else:
+            self.src.append('\\addtocounter{%s}{\\value{%s}}' % (n, m)); self.ev.append('AV:%s:%s' % (n, m))
+
+    def renew(self):
+        """\\renewcommand{\\thec}{...} at the top level of the body"""
+        rng = self.rng
+        units = self.printed_units()
+        cands = [u for u in units[:3]] + ['equation', 'figure', 'table'] + sorted({c for _, c in self.thms if c})
+        c = rng.choice(cands)
+        if self.appendix and c == self.unit:
+            return self.show_any()
+        if c == 'chapter' and not self.chapter_positive:
+            # known finding `roman-chapter-zero-float`: with a non-arabic \thechapter and chapter = 0 the textual
+            # trimLeft cannot drop the prefix; the generators reach that class only through the witness
+            return self.show_any()
+        if c == 'chapter':
+            self.chapter_renewed = True
+        # a parent macro strictly above c (never creates a cycle: units only refer upwards)
+        parents = []
+        if c != 'chapter':
+            if self.cls == 'book' and 'chapter' in units:
+                parents.append('thechapter')
+            if c not in ('chapter', 'section') and 'section' in units:
+                parents.append('thesection')
+        fmt = rng.choice(['arabic', 'arabic', 'Roman', 'roman'])
+        shape = rng.randrange(4)
+        if shape == 0 or not parents:
+            body = [('K', fmt, c)] if shape != 3 else [('L', '('), ('K', fmt, c), ('L', ')')]
+        elif shape == 1:
+            body = [('M', rng.choice(parents)), ('L', rng.choice(['.', '-', '.'])), ('K', fmt, c)]
+        elif shape == 2:
+            body = [('K', 'arabic', c), ('L', '/'), ('M', rng.choice(parents))]
+        else:
+            body = [('L', 'S'), ('M', rng.choice(parents)), ('L', '.'), ('K', 'arabic', c)]
+        tex = ''.join(b[1] if b[0] == 'L' else '\\%s{%s}' % (b[1], b[2]) if b[0] == 'K' else '\\%s ' % b[1] for b in body)
+        words = ';'.join(lit_word(b[1]) if b[0] == 'L' else 'K,%s,%s' % (b[1], b[2]) if b[0] == 'K' else 'M,%s' % b[1]
+                         for b in body)
+        self.src.append('\\renewcommand{\\the%s}{%s}' % (c, tex.rstrip()))
+        self.ev.append('RT:%s:%s' % (c, words))
+
     def counter_op(self):
         rng = self.rng
         pool = list(self.user) * 2 + ['equation', 'figure', 'table'] + [c for _, c in self.thms if c and not c.startswith('thmc')]
         pool += [s for s in self.secs if not (self.appendix and s == self.unit)]
         if self.malformed and rng.random() < 0.3:
             pool = ['nosuch']
+        if self.chapter_renewed:
+            pool = [c for c in pool if c != 'chapter'] or ['equation']     # keep the chapter number positive (see renew)
         c = rng.choice(pool)
         r = rng.random()
+        if c == 'chapter' and r < 0.4:
+            self.chapter_positive = False          # may be set to 0
         if r < 0.4:
             # small values, and values around / on the digit boundaries (9, 10, 19, 20, 99, 100 ...): the printed
             # numbers then contain zeros and several digits ("10.1", "100.20")
             v = rng.randint(0, 12) if rng.random() < 0.6 else rng.choice(BOUNDARY_VALUES)
             self.src.append('\\setcounter{%s}{%d}' % (c, v)); self.ev.append('T:%s:%d' % (c, v))
+            if c in self.readable() and rng.random() < 0.25:
+                fmts = ['arabic'] + (['Roman', 'roman'] if v >= 1 else []) + (['alph', 'Alph'] * 2 if 1 <= v <= 26 else [])
+                self.show(rng.choice(fmts), c)
         elif r < 0.65:
             v = rng.randint(0, 3) if rng.random() < 0.8 else rng.choice([7, 8, 9, 10, 90, 100])
             self.src.append('\\addtocounter{%s}{%d}' % (c, v)); self.ev.append('A:%s:%d' % (c, v))
@@ -343,6 +439,8 @@ class DocGen:
         self.ev.append('C:equation:equation:0:%d' % ENV_LEVEL)
         if self.rng.random() < 0.1:
             self.src.append('\\addtocounter{equation}{-1}'); self.ev.append('A:equation:-1')
+        else:
+            self.show_positive('equation')
 
     def eqnarray(self):
         rng = self.rng
@@ -355,7 +453,8 @@ class DocGen:
                 s.append(rng.choice(['\\nonumber', '\\nonumber ', '\\notag ']))
                 self.ev.append('NN')
             if i < rows - 1:
-                s.append('\\\\ ')
+                # \\* (no page break here) and \\[2pt] (extra space) end a row like \\ does
+                s.append(rng.choice(['\\\\ ', '\\\\ ', '\\\\ ', '\\\\* ', '\\\\[2pt] ']))
                 self.ev.append('QR')
         s.append('\\end{eqnarray}')
         self.src.append(''.join(s))
@@ -363,11 +462,16 @@ class DocGen:
     def float_(self):
         rng = self.rng
         kind = rng.choice(['figure', 'table'])
-        self.src.append('\\begin{%s}' % kind)
-        if rng.random() < 0.9:
-            self.src.append('\\caption%s{%s}' % ('[short]' if rng.random() < 0.2 else '', self.text()))
-            self.ev.append('C:caption:%s:0:%d' % (kind, CMD_LEVEL))
-        self.src.append('\\end{%s}' % kind)
+        env = kind + ('*' if rng.random() < 0.2 else '')      # figure* / table*: same counter
+        self.src.append('\\begin{%s}' % env)
+        if kind == 'table' and rng.random() < 0.25:
+            self.src.append('\\begin{tabular}{ll}a&b\\\\ c&d\\end{tabular}')
+        for _ in range(2 if rng.random() < 0.1 else 1):       # sometimes two captions in one float
+            if rng.random() < 0.9:
+                self.src.append('\\caption%s{%s}' % ('[short]' if rng.random() < 0.2 else '', self.text()))
+                self.ev.append('C:caption:%s:0:%d' % (kind, CMD_LEVEL))
+                self.show_positive(kind)
+        self.src.append('\\end{%s}' % env)
 
     def theorem(self, allow_list=True):
         rng = self.rng
@@ -402,6 +506,8 @@ class DocGen:
                 self.src.append('\\stepcounter{%s}' % c); self.ev.append('S:%s' % c)
             elif r < 0.56:
                 self.counter_op()         # explicit manipulation of a non-list counter inside a list
+            elif r < 0.6:
+                self.show_any()
         self.src.append('\\end{%s}' % kind)
         self.ev.append('EL')
         self.depth -= 1
@@ -414,6 +520,10 @@ class DocGen:
         opt = '[toc]' if rng.random() < 0.15 else ''
         self.src.append('\\%s%s%s{%s}' % (name, '*' if star else '', opt, self.text()))
         self.ev.append('C:%s:%s:%d:%d' % (name, name, 1 if star else 0, LEVELS[name]))
+        if not star and name == 'chapter':
+            self.chapter_positive = True
+        if not star and name != 'part' and not (self.appendix and name == self.unit):
+            self.show_positive(name)
 
     def long_body(self, n):
         rng = self.rng
@@ -445,8 +555,11 @@ class DocGen:
             elif r < 0.50: self.eqnarray()
             elif r < 0.60: self.float_()
             elif r < 0.74: self.theorem()
-            elif r < 0.86: self.list_()
-            else: self.counter_op()
+            elif r < 0.84: self.list_()
+            elif r < 0.92: self.counter_op()
+            elif r < 0.95: self.show_any()
+            elif r < 0.975: self.value_op()
+            else: self.renew()
             if rng.random() < 0.3:
                 self.src.append(self.text() + '\n\n')
 
@@ -457,10 +570,12 @@ def doc_blocks(g, n_pre_ev):
     return [[''.join(g.src[a:c]), g.ev[b:d]] for (a, b), (c, d) in zip(marks, marks[1:])]
 
 
-def doc_case_parts(cls, snd, pre, pre_ev, blocks, malformed):
-    line = '%s %d %s' % (cls, snd, ' '.join(pre_ev + [w for _, evs in blocks for w in evs]))
+def doc_case_parts(cls, snd, pre, pre_ev, blocks, malformed, cfg=None):
+    # `Document.invoke` also runs for \end{document}: the configured initial values are applied a second time there
+    post_ev = ['IC:%s:%d' % (c, v) for c, v in (cfg or {}).items()]
+    line = '%s %d %s' % (cls, snd, ' '.join(pre_ev + [w for _, evs in blocks for w in evs] + post_ev))
     meta = {'kind': 'doc', 'cls': cls, 'snd': snd, 'pre': pre, 'pre_ev': pre_ev, 'blocks': blocks,
-            'body': ''.join(src for src, _ in blocks), 'malformed': malformed}
+            'body': ''.join(src for src, _ in blocks), 'malformed': malformed, 'cfg': cfg or {}}
     return line, meta
 
 
@@ -472,12 +587,19 @@ def gen_doc(rng, tier):
     g.preamble()
     pre, pre_ev = ''.join(g.src), list(g.ev)
     g.src, g.ev = [], []
+    cfg = {}
+    if rng.random() < 0.1:
+        # the `--counter NAME VALUE` option: initial counter values, applied by \begin{document}
+        for c in rng.sample(g.printed_units()[:2] + ['equation', 'figure'], rng.randint(1, 2)):
+            cfg[c] = rng.choice([1, 2, 3, 5, 10, 11, 100])
+            pre_ev.append('IC:%s:%d' % (c, cfg[c]))
     if rng.random() < 0.08:
         # a long document: the counters grow past 10, 20 ... by stepping alone (numbers with several digits and zeros)
         g.long_body(rng.randint(10, 24))
     else:
         g.body(rng.randint(2, 9 if tier == 'quick' else 16))
-    return doc_case_parts(cls, snd, pre, pre_ev, doc_blocks(g, len(pre_ev)), malformed)
+    line, meta = doc_case_parts(cls, snd, pre, pre_ev, doc_blocks(g, len(pre_ev)), malformed, cfg)
+    return line, meta
 
 
 def num_cases(tier):
@@ -500,6 +622,11 @@ def generate(ctx):
     # documents first: when something breaks, the reported witness is a document if there is one
     for _ in range(700 if ctx.tier == 'quick' else 12000):
         line, meta = gen_doc(rng, ctx.tier)
+        if rng.random() < 0.06:
+            # a second document in the same process: another document is parsed first, the observation is that of
+            # this one (counters, \the... classes and list depth must not leak from one document into the next)
+            _, w = gen_doc(rng, 'quick')
+            meta['warmup'] = {'cls': w['cls'], 'snd': w['snd'], 'pre': w['pre'], 'body': w['body'], 'cfg': w['cfg']}
         yield Case('doc8', line, meta)
     for _ in range(n):
         yield Case('ctr', gen_ctr(rng), {'kind': 'ctr'})
@@ -530,6 +657,21 @@ def corpus():
         _doc_case('book', 2, '', '\\setcounter{chapter}{9}\\chapter{X}\\begin{figure}\\caption{a}\\end{figure}'
                   '\\setcounter{chapter}{99}\\chapter{Y}\\begin{table}\\caption{b}\\end{table}',
                   'T:chapter:9 C:chapter:chapter:0:0 C:caption:figure:0:1001 T:chapter:99 C:chapter:chapter:0:0 C:caption:table:0:1001'),
+        # book: an equation before the first chapter has no "0." prefix
+        _doc_case('book', 2, '', '\\begin{equation}a=b\\end{equation}\\chapter{A}\\begin{equation}a=b\\end{equation}',
+                  'C:equation:equation:0:201 C:chapter:chapter:0:0 C:equation:equation:0:201'),
+        # \appendix redefines \thesection globally, also after a \renewcommand{\thesection} inside the document environment
+        _doc_case('article', 2, '', '\\section{A}\\renewcommand{\\thesection}{\\Roman{section}}\\section{B}\\appendix\\section{C}',
+                  'C:section:section:0:1 RT:section:K,Roman,section C:section:section:0:1 AP:section C:section:section:0:1'),
+        _doc_case('book', 2, '', '\\chapter{A}\\renewcommand{\\thechapter}{\\Roman{chapter}}\\chapter{B}\\appendix\\chapter{C}\\section{D}',
+                  'C:chapter:chapter:0:0 RT:chapter:K,Roman,chapter C:chapter:chapter:0:0 AP:chapter C:chapter:chapter:0:0 C:section:section:0:1'),
+        # user entry points: \arabic ... in text, \value, the --counter option
+        _doc_case('article', 2, '\\newcounter{ua}', '\\setcounter{ua}{4}\\section{A}\\setcounter{section}{\\value{ua}}\\section{B}'
+                  '\\emph{\\Roman{section}}\\emph{\\alph{ua}}\\emph{\\thesection}',
+                  'N:ua:- T:ua:4 C:section:section:0:1 TV:section:ua C:section:section:0:1 SH:Roman:section SH:alph:ua ST:section'),
+        # \\* ends an eqnarray row like \\: the next row is numbered
+        _doc_case('article', 2, '', '\\begin{eqnarray}a&=&b\\\\* c&=&d\\\\[2pt] e&=&f\\end{eqnarray}\\begin{equation}x\\end{equation}',
+                  'QB QR QR C:equation:equation:0:201'),
         # \part is numbered in Roman
         _doc_case('book', 2, '', '\\part{P}\\chapter{A}\\part{Q}\\chapter{B}',
                   'C:part:part:0:-1 C:chapter:chapter:0:0 C:part:part:0:-1 C:chapter:chapter:0:0'),
@@ -640,6 +782,8 @@ def observe(doc):
                 tag = 'item'
             elif nm == 'ArrayRow' and in_eqn:
                 tag = 'row'
+            elif nm == 'emph':
+                out.append('show=%s' % c.textContent)
             if tag:
                 r = getattr(c, 'ref', None)
                 out.append('%s=%s' % (tag, '-' if r is None else r.textContent))
@@ -660,8 +804,12 @@ def build_tex(meta):
 
 
 def impl_doc(meta):
+    if meta.get('warmup'):
+        impl_doc(dict(meta['warmup']))
     doc, tex = fresh_doc()
     doc.config['document']['sec-num-depth'] = meta['snd']
+    for k, v in (meta.get('cfg') or {}).items():
+        doc.config['counters']['counters'][k] = v
     tex.input(build_tex(meta))
     try:
         tex.parse()
@@ -735,7 +883,8 @@ def shrink_doc(o, evaluate):
             break
         cands = []
         for i in range(len(blocks)):
-            line, meta = doc_case_parts(m['cls'], m['snd'], m['pre'], m['pre_ev'], blocks[:i] + blocks[i + 1:], m['malformed'])
+            line, meta = doc_case_parts(m['cls'], m['snd'], m['pre'], m['pre_ev'], blocks[:i] + blocks[i + 1:], m['malformed'],
+                                        m.get('cfg'))
             cands.append(Case('doc8', line, meta, 'shrink'))
         nxt = next((r for r in evaluate(cands) if not r.prop_ok), None)
         if nxt is None:
